@@ -18,6 +18,9 @@ func init() {
 		quick = append(quick, &Job{Pkg: "", Func: "ZZ_C11_AfterClose", Args: []int64{(entry % 2) * 2, 1, entry, 3 + entry%3, entry % 2}, Bounds: b + "; Close argument: timeout net.Error / wrapped timeout / other net.Error"})
 		thorough = append(thorough, &Job{Pkg: "", Func: "ZZ_C11_AfterClose", Args: []int64{((entry + 1) % 2) * 2, 0, entry, 3 + (entry+1)%3, 1}, Bounds: b})
 		thorough = append(thorough, &Job{Pkg: "", Func: "ZZ_C11_AfterClose", Args: []int64{1, 1, entry, 3 + (entry+2)%3, 0}, Bounds: b})
+		// end-of-stream close arguments (io.EOF, wrapped io.ErrUnexpectedEOF)
+		quick = append(quick, &Job{Pkg: "", Func: "ZZ_C11_AfterClose", Args: []int64{((entry + 1) % 2) * 2, 1, entry, 6 + entry%2, (entry + 1) % 2}, Bounds: b + "; Close argument: io.EOF / wrapped io.ErrUnexpectedEOF"})
+		thorough = append(thorough, &Job{Pkg: "", Func: "ZZ_C11_AfterClose", Args: []int64{(entry % 2) * 2, 0, entry, 7 - entry%2, entry % 2}, Bounds: b})
 		// the parent context ends before Close (pre bit 1)
 		quick = append(quick, &Job{Pkg: "", Func: "ZZ_C11_AfterClose", Args: []int64{(entry % 2) * 2, entry % 2, entry, entry % 3, 2 + entry%2}, Bounds: b + "; the channel's parent context is cancelled before Close"})
 		thorough = append(thorough, &Job{Pkg: "", Func: "ZZ_C11_AfterClose", Args: []int64{((entry + 1) % 2) * 2, 1, entry, (entry + 1) % 3, 3 - entry%2}, Bounds: b + "; the channel's parent context is cancelled before Close"})
